@@ -228,6 +228,12 @@ def hazard_programs():
     out.append(("try-catch-base", TRY(THROW(P("exc4", K(1))), (0, E, T(K(3))), None)))
     out.append(("try-nomatch", TRY(TRY(THROW(P("exc4", K(1))), (1, E, T(K(3))), T(K(5))), (4, E, T(K(6))), None)))
     out.append(("throw-in-arg", TRY(VEC(T(K(1)), THROW(P("exc1", K(0))), T(K(2))), (1, E, K(9)), None)))
+    # a binding init whose code depends on its syntactic position, in a let*/loop* that is itself a
+    # non-final statement of a body (F-01e)
+    out.append(("let-init-in-stmt-position", LET(XQ, K(15), DO(LET(A_B, IF(L(XQ), L(XQ), T(K(16))), T(L(A_B))), K(3)))))
+    out.append(("loop-init-in-stmt-position", LET(XQ, K(15), DO(LOOP([(I, IF(L(XQ), L(XQ), T(K(16))))], T(L(I))), K(3)))))
+    out.append(("let-init-in-fn-stmt-position", INV(FN([XQ], DO(LET(A_B, IF(L(XQ), VEC(L(XQ)), T(K(16))), T(L(A_B))), L(XQ))), K(7))))
+    out.append(("let-try-init-in-stmt-position", LET(XQ, K(15), DO(LET(A_B, TRY(IF(L(XQ), L(XQ), K(1)), (0, E, K(2)), None), T(L(A_B))), K(3)))))
     # a finally clause (or a handler) that is only a constant or a local: nothing is left of it after
     # the optimizer's constant-statement elimination
     out.append(("try-finally-constant", TRY(T(K(1)), None, K(None))))
